@@ -15,11 +15,58 @@ MISC_VALUE_UPDATED, MISC_GET_EXTENDED_TYPE, MISC_PERSISTENT_STORE, MISC_PERSISTE
 EXT_PERSISTENT = 1
 ENOENT = errno.ENOENT
 
-FUNCTIONS = []
-STUBS = []
-ASSUMPTIONS = []
-OUTSIDE = []
-EXPLANATION = ''
+FUNCTIONS = ['cflib.crazyflie.param:Param.__init__', 'cflib.crazyflie.param:Param.set_value',
+             'cflib.crazyflie.param:Param.set_value_raw', 'cflib.crazyflie.param:Param.get_value',
+             'cflib.crazyflie.param:Param.request_param_update', 'cflib.crazyflie.param:Param.request_update_of_all_params',
+             'cflib.crazyflie.param:Param._param_updated', 'cflib.crazyflie.param:Param._check_if_all_updated',
+             'cflib.crazyflie.param:Param.add_update_callback', 'cflib.crazyflie.param:Param.refresh_toc',
+             'cflib.crazyflie.param:Param.get_default_value', 'cflib.crazyflie.param:Param.persistent_clear',
+             'cflib.crazyflie.param:Param.persistent_store', 'cflib.crazyflie.param:Param.persistent_get_state',
+             'cflib.crazyflie.param:ParamTocElement.__init__', 'cflib.crazyflie.param:_ParamUpdater.run',
+             'cflib.crazyflie.param:_ParamUpdater._new_packet_cb', 'cflib.crazyflie.param:_ParamUpdater.request_param_update',
+             'cflib.crazyflie.param:_ParamUpdater.request_param_setvalue', 'cflib.crazyflie.param:_ParamUpdater.send_param_misc',
+             'cflib.crazyflie.param:_ExtendedTypeFetcher.run', 'cflib.crazyflie.param:_ExtendedTypeFetcher._new_packet_cb',
+             'cflib.crazyflie.param:_ExtendedTypeFetcher.request_extended_types', 'cflib.crazyflie.param:_ExtendedTypeFetcher._close',
+             'cflib.crazyflie.toc:Toc.add_element', 'cflib.crazyflie.toc:Toc.get_element_by_complete_name',
+             'cflib.crazyflie.toc:Toc.get_element_id', 'cflib.crazyflie.toc:Toc.get_element_by_id',
+             'cflib.crazyflie:_IncomingPacketHandler.run', 'cflib.crazyflie:_IncomingPacketHandler.add_header_callback',
+             'cflib.crazyflie:_IncomingPacketHandler.remove_header_callback', 'cflib.crazyflie:Crazyflie.send_packet',
+             'cflib.utils.callbacks:Caller.call', 'cflib.crtp.crtpstack:CRTPPacket']
+STUBS = ['threading.Thread.start/is_alive/join: no OS thread; _ParamUpdater.run and _ExtendedTypeFetcher.run are stepped as tasks '
+         '(real run() left through Yield at Queue.get on an empty queue / Lock.acquire on a held lock; transactional get)',
+         'cflib.crazyflie.param.Queue/Lock/Event replaced by FakeQueue/FakeLock/FakeEvent (vf/env/c04_env.py); Event.wait never '
+         'blocks, it returns the flag',
+         'cflib.crazyflie.param.TocFetcher replaced by a stub that installs the harness table through the real ParamTocElement '
+         'constructor and calls the finished callback (the download is C03)',
+         'ParamCF: MiniCF (real Crazyflie.send_packet, recording link) + the real _IncomingPacketHandler; one dispatcher '
+         'iteration per delivered packet',
+         'int.__str__/float.__str__ of a SYMBOLIC number modelled as an injective function (NumText; equal iff same number, '
+         'for floats same IEEE value incl. sign of zero / both NaN); concrete replay uses the real strings',
+         'persistent flags in attribution/serial harnesses set with ParamTocElement.mark_persistent() (the real fetch that sets '
+         'them is checked by the exttype harnesses)', 'logging disabled']
+ASSUMPTIONS = ['context switches only at blocking calls (Queue.get, Lock.acquire): user calls and the dispatch of one packet are '
+               'atomic; hence k user threads = the merged call sequence, which is what serial[*] enumerates',
+               'device side written from the CRTP parameter protocol as documented (firmware sources not in the sandbox): read '
+               'reply id,status,value (V2) / id,value (V1); write reply id,value; misc replies command,id,...; the error reply '
+               'to GET_DEFAULT_VALUE is exactly command,id,ENOENT (4 bytes); a one-byte default value 2 is byte-identical to '
+               'that error reply, either reading of it is accepted',
+               'the device answers requests in the order received; a reply may arrive a second time (request retransmitted on '
+               'links that need resending) - a copy that is indistinguishable (channel, id, command) from the awaited reply '
+               'counts as that reply',
+               'the connection sequence (refresh_toc, request_update_of_all_params) has run before user requests: '
+               '_ParamUpdater._useV2 is only refreshed by request_param_update',
+               'parameter ids in one table are pairwise distinct; the three requests of the attribution harness address '
+               'pairwise distinct parameters',
+               'set_value gets an int for integer parameters and a float (thorough: also an int) for float/double parameters']
+OUTSIDE = ['real thread preemption between two bytecodes', 'set_value with str/bool/Decimal arguments or a float for an integer '
+           'parameter (int() truncation)', 'FP16 (type code 5) parameters other than the refusal of writes: their read replies '
+           'raise inside the updater callback', 'error replies to read/write requests (device table differs from the TOC)',
+           'misc requests on protocol V1 (not supported by the firmware)', 'user update-callbacks that raise',
+           'set_value_raw names longer than the packet', 'close()/disconnect while requests are pending (C02/C10)',
+           'two outstanding misc requests of the same command for the SAME parameter']
+EXPLANATION = 'C04: real Param/_ParamUpdater/_ExtendedTypeFetcher behind the real dispatcher; symbolic type metadata, ids, ' \
+              'protocol version, user values (ints of 71 bits / any double), device values (every bit pattern of the type), ' \
+              'reply statuses, request kinds, schedule of calls / updater steps / replies / copies.'
 
 
 # ------------------------------------------------------------------------------------------------ world
@@ -41,6 +88,18 @@ class World:
     @property
     def sent(self):
         return self.cf.sent
+
+    def fetch_all(self, v2, params):
+        """The rest of the connection sequence: Param.request_update_of_all_params(), every read answered by the device.
+        params: [(ident, value bytes)] in TOC order."""
+        self.p.request_update_of_all_params()
+        for ident, vbytes in params:
+            n = len(self.sent)
+            assert self.env.step(self.up) == 'yield' and len(self.sent) == n + 1, 'read request not sent'
+            check_header(self.sent[n], CH_READ)
+            assert list(self.sent[n].data) == E.ident_bytes(ident, v2), 'read request does not carry the parameter id'
+            self.cf.deliver(E.packet(PORT_PARAM, CH_READ, bytearray(E.ident_bytes(ident, v2) + ([0] if v2 else []) + vbytes)))
+        assert self.p.is_updated and not self.up.wait_lock.held
 
 
 def check_header(pk, chan):
@@ -163,10 +222,9 @@ def _typing(sym, env):
     assert len(pk.data) == (2 if v2 else 1) + E.type_size(code)
     assert list(pk.data) == E.ident_bytes(ident, v2) + ref, 'write request is not id || value in the declared type'
     # the device stores the bytes and answers with id || stored value
-    if code in E.INT_CODES:
-        stored = value
-    else:
-        stored = E.float_from_bytes(code, ref)
+    # (its number is the reference decoding of those bytes; that decoding inverts the reference encoding is arithmetic,
+    # not a fact about cflib - asking the solver to re-prove it for 64-bit values costs 73 s per query)
+    stored = E.int_from_bytes(code, ref) if code in E.INT_CODES else E.float_from_bytes(code, ref)
     cf.deliver(E.packet(PORT_PARAM, CH_WRITE, bytearray(E.ident_bytes(ident, v2) + ref)))
     exp = [(k, 'g.x', text(stored)) for k in ('name', 'group', 'all')]
     assert len(calls) == 3 and sorted(c[0] for c in calls) == ['all', 'group', 'name']
@@ -176,17 +234,497 @@ def _typing(sym, env):
     assert p.get_value('g.y') == text(yv) and p.get_value('h.z') == '7', 'another parameter changed'
     assert not up.wait_lock.held and not up.request_queue.items
     sym.goal('written')
+    if not v2:
+        return
+    # ---- unsolicited value-changed notification from the firmware (misc channel, V2 only): command, id, new value
+    del calls[:]
+    nv, nv_bytes = _device_value(sym, code, 'notified_value')
+    cf.deliver(E.packet(PORT_PARAM, CH_MISC, bytearray([MISC_VALUE_UPDATED] + E.ident_bytes(ident, True) + nv_bytes)))
+    assert len(calls) == 3
+    for e in [(k, 'g.x', text(nv)) for k in ('name', 'group', 'all')]:
+        assert [c for c in calls if c[0] == e[0]] == [e], ('update callback did not get the notified value once', e[0])
+    assert p.get_value('g.x') == text(nv) and p.get_value('g.y') == text(yv) and p.get_value('h.z') == '7'
+    assert not up.wait_lock.held and env.step(up) == 'yield' and len(w.sent) == nsent + 1
+    sym.goal('notified')
 
 
+
+def h_refuse(sym):
+    with E.Env(sym.symbolic) as env:
+        _refuse(sym, env)
+
+
+def _refuse(sym, env):
+    """Unknown names and the FP16 type code (no struct format): set_value raises, nothing is queued or sent."""
+    which = sym.B['which']
+    ver = sym.int('ver', 0, 10)
+    v2 = bool(ver >= 4)
+    ident = sym.int('ident', 0, 255)
+    value = sym.int('value', -(1 << 70), 1 << 70) if sym.B.get('value', 'int') == 'int' else sym.f64('value')
+    sym.apply_known()
+    if which == 'fp16':
+        w = World(sym, env, ver, [(ident, E.FP16_CODE, _TAIL('g', 'x'))])
+        w.p._initialized.set()           # a table holding an FP16 entry never finishes the initial fetch (outside the claim)
+        name = 'g.x'
+    else:
+        w = World(sym, env, ver, [(ident, 0x08, _TAIL('g', 'x'))])
+        w.fetch_all(v2, [(ident, [1])])
+        name = ['g.q', 'q.x', 'gx', 'g.x.y', ''][sym.choice('name', 5)]
+    p, up = w.p, w.up
+    nput, nsent = len(up.request_queue.puts), len(w.sent)
+    try:
+        p.set_value(name, value)
+        raised = None
+    except Exception as e:               # noqa: BLE001
+        raised = e
+    assert raised is not None, 'write to an unknown parameter / untyped parameter accepted'
+    if which != 'fp16':
+        assert isinstance(raised, KeyError)
+    assert len(up.request_queue.puts) == nput and not up.request_queue.items, 'refused write was queued'
+    assert env.step(up) == 'yield' and len(w.sent) == nsent, 'refused write was transmitted'
+    sym.goal('refused')
+
+
+_RAW_FMT = {0x08: 'B', 0x09: 'H', 0x0A: 'I', 0x0B: 'Q', 0x00: 'b', 0x01: 'h', 0x02: 'i', 0x03: 'q', 0x06: 'f', 0x07: 'd'}
+
+
+def h_set_raw(sym):
+    """Param.set_value_raw: set-by-name request = 0, group\\0, name\\0, type code, value in that type; sent at once."""
+    with E.Env(sym.symbolic) as env:
+        codes = sym.B['codes']
+        code = codes[sym.choice('code', len(codes))]
+        value = sym.int('value', -(1 << 70), 1 << 70) if code in E.INT_CODES else sym.f64('value')
+        sym.apply_known()
+        w = World(sym, env, 10, [])
+        if code in E.INT_CODES:
+            lo, hi = E.int_range(code)
+            ref = E.int_bytes(code, value) if lo <= value <= hi else None
+        else:
+            try:
+                ref = E.float_bytes(code, value)
+            except OverflowError:
+                ref = None
+        try:
+            w.p.set_value_raw('grp.nm', code, value)
+            raised = None
+        except Exception as e:           # noqa: BLE001
+            raised = e
+        if ref is None:
+            assert isinstance(raised, (struct.error, OverflowError)) and not w.sent, 'out-of-range value not refused'
+            sym.goal('refused-range')
+            return
+        assert raised is None and len(w.sent) == 1
+        check_header(w.sent[0], CH_MISC)
+        assert list(w.sent[0].data) == [0] + list(b'grp\0nm\0') + [code] + ref, 'set-by-name request malformed'
+        sym.goal('sent')
+
+
+_TAIL = lambda g, n: (g + '\0' + n + '\0').encode('ISO-8859-1')      # noqa: E731
 _NAMES = {0x08: 'uint8', 0x09: 'uint16', 0x0A: 'uint32', 0x0B: 'uint64', 0x00: 'int8', 0x01: 'int16', 0x02: 'int32',
           0x03: 'int64', 0x06: 'float', 0x07: 'double'}
 
 HARNESSES = [
-    Harness(f'typing[{_NAMES[c]}]', h_typing, quick=dict(code=c), goals=('read', 'written', 'refused-ro', 'refused-range'),
+    Harness(f'typing[{_NAMES[c]}]', h_typing, quick=dict(code=c), goals=('read', 'written', 'notified', 'refused-ro', 'refused-range'),
             timeout=(300, 900))
     for c in (0x08, 0x09, 0x0A, 0x0B, 0x00, 0x01, 0x02, 0x03)
 ] + [
-    Harness(f'typing[{_NAMES[c]}]', h_typing, quick=dict(code=c), goals=('read', 'written', 'refused-ro') +
+    Harness(f'typing[{_NAMES[c]}]', h_typing, quick=dict(code=c), goals=('read', 'written', 'notified', 'refused-ro') +
             (('refused-range',) if c == 0x06 else ()), timeout=(300, 900), smt_timeout=1.5)
     for c in (0x06, 0x07)
+] + [
+    Harness(f'typing[{_NAMES[c]},int value]', h_typing, quick=dict(code=c, value='int'), tiers=('thorough',),
+            goals=('read', 'written', 'notified', 'refused-ro', 'refused-range'), timeout=(300, 900), smt_timeout=1.5)
+    for c in (0x06, 0x07)
+] + [
+    Harness('refuse[unknown name]', h_refuse, quick=dict(which='name'), goals=('refused',)),
+    Harness('refuse[fp16]', h_refuse, quick=dict(which='fp16', value='float'), goals=('refused',)),
+    Harness('set_raw[ints]', h_set_raw, quick=dict(codes=tuple(sorted(E.INT_CODES))), goals=('sent', 'refused-range')),
+    Harness('set_raw[floats]', h_set_raw, quick=dict(codes=(0x06, 0x07)), goals=('sent', 'refused-range'), smt_timeout=1.5),
+]
+
+
+# ------------------------------------------------------------------------------------------------ (c) misc requests
+STORE, GET_STATE, CLEAR, DEFAULT = MISC_PERSISTENT_STORE, MISC_PERSISTENT_GET_STATE, MISC_PERSISTENT_CLEAR, \
+    MISC_GET_DEFAULT_VALUE
+KINDS = (GET_STATE, STORE, CLEAR, DEFAULT)
+
+
+def same_num(code, a, b):
+    if code in E.INT_CODES:
+        return a == b
+    return E.same_float(a, b)
+
+
+def issue_misc(p, kind, name, cb):
+    if kind == GET_STATE:
+        p.persistent_get_state(name, cb)
+    elif kind == STORE:
+        p.persistent_store(name, cb)
+    elif kind == CLEAR:
+        p.persistent_clear(name, cb)
+    else:
+        p.get_default_value(name, cb)
+
+
+def misc_reply(sym, tag, kind, code, ident):
+    """The firmware's answer to misc request (kind, ident) for a parameter of type `code`; status and values symbolic.
+    -> (reply payload bytes, predicate on the callback argument)."""
+    head = [kind] + E.ident_bytes(ident, True)
+    if kind in (STORE, CLEAR):
+        st = sym.int(tag + 'status', 0, 255)                 # 0 = done, anything else = errno
+        return head + [st], lambda arg: (arg is True or arg is False or isinstance(arg, bool)) and bool(arg) == bool(st == 0)
+    if kind == GET_STATE:
+        st = sym.int(tag + 'state', 0, 2)                    # 0 not stored, 1 stored, 2 (ENOENT) no such persistent param
+        if st == ENOENT:
+            return head + [st], lambda arg: arg is None
+        dflt, dbytes = _device_value(sym, code, tag + 'default')
+        if st == 0:
+            return head + [st] + dbytes, lambda arg: (arg is not None and len(arg) == 3 and not arg.is_stored and
+                                                      same_num(code, arg.default_value, dflt) and arg.stored_value is None)
+        stored, sbytes = _device_value(sym, code, tag + 'stored')
+        return head + [st] + dbytes + sbytes, lambda arg: (arg is not None and len(arg) == 3 and bool(arg.is_stored) and
+                                                           same_num(code, arg.default_value, dflt) and
+                                                           same_num(code, arg.stored_value, stored))
+    # default value: id || value, or id || ENOENT (4 bytes) when the parameter has none
+    if sym.bool(tag + 'no_default'):
+        return head + [ENOENT], lambda arg: arg is None
+    dflt, dbytes = _device_value(sym, code, tag + 'default')
+    if E.type_size(code) == 1:
+        # protocol ambiguity, not cflib's: a one-byte default value 2 is byte-identical to the error reply
+        return head + dbytes, lambda arg: (arg is None and bool(dbytes[0] == ENOENT)) or \
+            (arg is not None and same_num(code, arg, dflt))
+    return head + dbytes, lambda arg: arg is not None and same_num(code, arg, dflt)
+
+
+def h_attr(sym):
+    with E.Env(sym.symbolic) as env:
+        _attr(sym, env)
+
+
+def _attr(sym, env):
+    N, code = sym.B['requests'], sym.B.get('code', 0x08)
+    names = ['p.a', 'p.b', 'p.c', 'p.d'][:N]
+    idents = [sym.int(f'ident{i}', 0, 65535) for i in range(N)]
+    for i in range(N):
+        for j in range(i):
+            sym.assume(idents[i] != idents[j])
+    kinds = [KINDS[sym.choice(f'kind{i}', len(KINDS))] for i in range(N)]
+    if 'kind0' in sym.B:
+        sym.assume(kinds[0] == sym.B['kind0'])
+    dup_of = sym.int('dup_of', 0, N - 1) if sym.B.get('dup') else None          # which reply arrives twice
+    dup_at = sym.int('dup_at', 0, N - 1) if sym.B.get('dup') else None          # ... the copy after reply number dup_at
+    if dup_of is not None:
+        sym.assume(dup_at >= dup_of)
+    sym.apply_known()
+    w = World(sym, env, 10, [(idents[i], code, _TAIL('p', names[i][2:])) for i in range(N)])
+    p, cf, up = w.p, w.cf, w.up
+    w.fetch_all(True, [(idents[i], [0] * E.type_size(code)) for i in range(N)])
+    for n in names:
+        p.toc.get_element_by_complete_name(n).mark_persistent()
+    base = len(w.sent)
+    now = {'reply': None}
+    got = [[] for _ in range(N)]
+
+    def mk(i):
+        def cb(name, arg):
+            got[i].append((now['reply'], name, arg))
+        return cb
+    for i in range(N):
+        issue_misc(p, kinds[i], names[i], mk(i))
+    assert len(w.sent) == base
+    replies, preds = [], []
+    for i in range(N):
+        body, pred = misc_reply(sym, f'r{i}_', kinds[i], code, idents[i])
+        replies.append(body)
+        preds.append(pred)
+    for i in range(N):
+        assert env.step(up) == 'yield'
+        assert len(w.sent) == base + i + 1, 'request not sent (or more than one sent)'
+        pk = w.sent[base + i]
+        check_header(pk, CH_MISC)
+        assert list(pk.data) == [kinds[i]] + E.ident_bytes(idents[i], True), 'misc request is not command || id'
+        now['reply'] = i
+        cf.deliver(E.packet(PORT_PARAM, CH_MISC, bytearray(replies[i])))
+        if dup_of is not None and dup_at == i:
+            j = _pick(dup_of, i + 1)
+            now['reply'] = ('copy', j)
+            cf.deliver(E.packet(PORT_PARAM, CH_MISC, bytearray(replies[j])))
+            sym.goal('duplicate')
+    assert env.step(up) == 'yield' and len(w.sent) == base + N
+    for i in range(N):
+        assert len(got[i]) >= 1, ('callback of a request never invoked', i)
+        assert [g[0] for g in got[i]] == [i], ('callback invoked by a reply that does not answer its request (or twice)',
+                                               i, [g[0] for g in got[i]])
+        assert got[i][0][1] == names[i]
+        assert preds[i](got[i][0][2]), ('callback argument differs from what the device reported', i)
+    assert not up.wait_lock.held and not up.request_queue.items
+    sym.goal('answered')
+    if any(kinds[i] == kinds[j] for i in range(N) for j in range(i)):
+        sym.goal('same-command-twice')
+
+
+def _pick(v, n):
+    """Concrete value of a symbolic int in range(n) (forks)."""
+    for a in range(n - 1):
+        if v == a:
+            return a
+    return n - 1
+
+
+_KN = {GET_STATE: 'get_state', STORE: 'store', CLEAR: 'clear', DEFAULT: 'default'}
+HARNESSES += [
+    Harness(f'attribution[{_KN[k]}..]', h_attr, quick=dict(requests=3, kind0=k), thorough=dict(requests=3, kind0=k, dup=True),
+            timeout=(600, 2400), goals=('answered', 'same-command-twice'))
+    for k in KINDS
+] + [
+    Harness(f'misc_typing[{_NAMES[c]}]', h_attr, quick=dict(requests=1, code=c), timeout=(300, 900), goals=('answered',),
+            smt_timeout=(1.5 if c in E.FLOAT_CODES else None))
+    for c in _NAMES
+]
+
+
+# ------------------------------------------------------------------------------------------------ extended types
+def h_exttype(sym):
+    with E.Env(sym.symbolic) as env:
+        _exttype(sym, env)
+
+
+def _fetcher_of(cf):
+    from cflib.crazyflie.param import _ExtendedTypeFetcher
+    fs = [c.callback.__self__ for c in cf.incoming.cb if isinstance(getattr(c.callback, '__self__', None), _ExtendedTypeFetcher)]
+    assert len(fs) == 1
+    return fs[0]
+
+
+def _exttype(sym, env):
+    N = sym.B['extended']
+    idents = [sym.int(f'ident{i}', 0, 65535) for i in range(N + 1)]
+    for i in range(N + 1):
+        for j in range(i):
+            sym.assume(idents[i] != idents[j])
+    ext = [sym.int(f'ext_type{i}', 0, 255) for i in range(N)]
+    notif = sym.B.get('notify')
+    if notif:
+        n_at = sym.int('notify_at', 0, N - 1)            # a value-changed notification arrives while request n_at is open
+        n_id = sym.int('notify_ident', 0, 65535)
+        n_val = sym.int('notify_value', 0, 255)
+        sym.assume(any(n_id == x for x in idents))        # the firmware notifies about parameters it has
+    sym.apply_known()
+    names = ['e.a', 'e.b', 'e.c', 'e.d'][:N]
+    table = [(idents[i], 0x08 + 0x10, _TAIL('e', names[i][2:])) for i in range(N)] + [(idents[N], 0x08, _TAIL('q', 'plain'))]
+    w = World(sym, env, 10, table)
+    cf, p = w.cf, w.p
+    f = _fetcher_of(cf)
+    assert w.toc_done == 0, 'TOC reported complete before the extended types were fetched'
+    for i in range(N):
+        assert env.step(f) == 'yield'
+        assert len(w.sent) == i + 1, 'extended-type request not sent, or sent before the previous one was answered'
+        check_header(w.sent[i], CH_MISC)
+        assert list(w.sent[i].data) == [MISC_GET_EXTENDED_TYPE] + E.ident_bytes(idents[i], True)
+        assert env.step(f) == 'yield' and len(w.sent) == i + 1
+        if notif and n_at == i:
+            cf.deliver(E.packet(PORT_PARAM, CH_MISC, bytearray([MISC_VALUE_UPDATED] + E.ident_bytes(n_id, True) + [n_val])))
+            sym.goal('notified')
+            if n_id == idents[i]:
+                sym.goal('notified-about-the-open-request')
+            assert len(w.sent) == i + 1 and (env.step(f), len(w.sent)) == ('yield', i + 1), \
+                'next request sent although the open one is not answered'
+        assert w.toc_done == 0, 'TOC reported complete although an extended-type request is still unanswered'
+        cf.deliver(E.packet(PORT_PARAM, CH_MISC, bytearray([MISC_GET_EXTENDED_TYPE] + E.ident_bytes(idents[i], True) + [ext[i]])))
+    assert w.toc_done == 1, 'completion not reported exactly once after the last answer'
+    for i in range(N):
+        el = p.toc.get_element_by_complete_name(names[i])
+        assert bool(el.is_persistent()) == bool(ext[i] == EXT_PERSISTENT), ('persistent flag differs from the device answer', i)
+    assert not p.toc.get_element_by_complete_name('q.plain').is_persistent()
+    assert env.step(f) == 'yield' and len(w.sent) == N and not f._lock.held and not f.request_queue.items
+    if any(bool(e == EXT_PERSISTENT) for e in ext):
+        sym.goal('persistent')
+
+
+HARNESSES += [
+    Harness('exttype', h_exttype, quick=dict(extended=3), thorough=dict(extended=4), timeout=(300, 900), goals=('persistent',)),
+    Harness('exttype[notify]', h_exttype, quick=dict(extended=2, notify=True), thorough=dict(extended=3, notify=True),
+            timeout=(300, 900), goals=('persistent', 'notified', 'notified-about-the-open-request')),
+]
+
+
+# ------------------------------------------------------------------------------------------------ (b) serialisation
+SET, READ, MISC = 'set', 'read', 'misc'
+REQ_KINDS = (SET, READ, MISC)
+
+
+def h_serial(sym):
+    with E.Env(sym.symbolic) as env:
+        _serial(sym, env)
+
+
+def _serial(sym, env):
+    """Requests (set / read / persistent_store on one of two uint8 parameters) are issued at solver-chosen points between
+    updater steps and reply deliveries.  User calls never block (they put on an unbounded queue), so under the stated
+    context-switch bound each call is atomic and k user threads produce exactly the histories of the merged call sequence:
+    the harness enumerates the merged sequence (every kind and target per position) and every position of each call relative
+    to the updater's steps and the arrival of the replies."""
+    N = sym.B['requests']
+    dups = sym.B.get('dups', 0)
+    notify = sym.B.get('notify', 0)
+    eager = sym.B.get('issue_first', False)
+    ids = [sym.int('ident_x', 0, 65535), sym.int('ident_y', 0, 65535)]
+    sym.assume(ids[0] != ids[1])
+    names = ['g.x', 'g.y']
+    kinds, targets, setvals = [], [], []
+    for k in range(N):
+        fixed = sym.B.get(f'kind{k}')             # the check is split over the kinds of the first request(s) to run in parallel
+        kinds.append(fixed if fixed is not None else REQ_KINDS[sym.choice(f'kind{k}', 3)])
+        targets.append(0 if k == 0 else sym.choice(f'target{k}', 2))       # symmetry: the first request goes to x
+        setvals.append(sym.int(f'value{k}', 0, 255))
+    dev = [sym.int('x0', 0, 255), sym.int('y0', 0, 255)]                  # values held by the device
+    sym.apply_known()
+    w = World(sym, env, 10, [(ids[0], 0x08, _TAIL('g', 'x')), (ids[1], 0x08, _TAIL('g', 'y'))])
+    p, cf, up = w.p, w.cf, w.up
+    w.fetch_all(True, [(ids[0], [dev[0]]), (ids[1], [dev[1]])])
+    for n in names:
+        p.toc.get_element_by_complete_name(n).mark_persistent()
+    base_sent, base_put = len(w.sent), len(up.request_queue.puts)
+    stored_cb = []
+    reported = [dev[0], dev[1]]          # last value the device reported per parameter (what the cache must show)
+
+    issued = 0
+    answered = []                        # per request on the wire: has a reply that answers it arrived since?
+    wire = []                            # (channel, key bytes) of requests on the wire, in order
+    inflight = []                        # replies produced by the device, not yet delivered: (request index, packet)
+    copies = []                          # delivered replies that may arrive once more: (request index, packet)
+    ndup = 0
+    nnotif = 0
+
+    def key_of(k):
+        t = ids[targets[k]]
+        if kinds[k] == SET:
+            return CH_WRITE, E.ident_bytes(t, True)
+        if kinds[k] == READ:
+            return CH_READ, E.ident_bytes(t, True)
+        return CH_MISC, [MISC_PERSISTENT_STORE] + E.ident_bytes(t, True)
+
+    def on_wire():
+        """The device receives what the updater has just sent; checks order and the one-at-a-time rule."""
+        while len(wire) < len(w.sent) - base_sent:
+            k = len(wire)
+            pk = w.sent[base_sent + k]
+            assert k < issued and pk is up.request_queue.puts[base_put + k], 'wire order differs from issue order'
+            assert all(answered), ('request sent while an earlier one is still unanswered', k, list(answered))
+            chan, key = key_of(k)
+            check_header(pk, chan)
+            t = targets[k]
+            if kinds[k] == SET:
+                assert list(pk.data) == key + [setvals[k]]
+                dev[t] = setvals[k]
+                body = key + [dev[t]]
+            elif kinds[k] == READ:
+                assert list(pk.data) == key
+                body = key + [0, dev[t]]
+            else:
+                assert list(pk.data) == key
+                body = key + [0]
+            wire.append((chan, key))
+            answered.append(False)
+            inflight.append((k, (chan, list(body)), dev[t]))
+
+    def deliver(j, raw, val):
+        chan, body = raw
+        pk = E.packet(PORT_PARAM, chan, bytearray(body))        # a fresh packet per arrival (the updater edits packets in place)
+        # which open request does this packet answer?  (same channel, same id, same command: a copy of an earlier reply
+        # that is indistinguishable from the awaited one counts as the answer - no implementation could tell them apart)
+        for k in range(len(wire)):
+            if not answered[k] and wire[k][0] == chan and list(pk.data[:len(wire[k][1])]) == wire[k][1]:
+                answered[k] = True
+                if chan != CH_MISC:
+                    reported[targets[k]] = val
+                break
+        cf.deliver(pk)
+
+    for t in range(4 * N + dups + notify + 2):
+        on_wire()
+        ev = []
+        if issued < N:
+            ev.append('issue')
+        if not eager or issued == N:
+            if up.request_queue.items and not up.wait_lock.held:
+                ev.append('updater')
+            if inflight:
+                ev.append('reply')
+            if copies and ndup < dups:
+                ev.append('copy')
+            if nnotif < notify:
+                ev.append('notify')
+        if not ev:
+            break
+        e = ev[_pick(sym.int(f'ev{t}', 0, len(ev) - 1), len(ev))] if len(ev) > 1 else ev[0]
+        if e == 'issue':
+            k = issued
+            issued += 1
+            nq = len(up.request_queue.puts)
+            if kinds[k] == SET:
+                p.set_value(names[targets[k]], setvals[k])
+            elif kinds[k] == READ:
+                p.request_param_update(names[targets[k]])
+            else:
+                p.persistent_store(names[targets[k]], lambda n, ok, k=k: stored_cb.append((k, n, ok)))
+            assert len(up.request_queue.puts) == nq + 1
+        elif e == 'updater':
+            n = len(w.sent)
+            assert env.step(up) == 'yield'
+            assert len(w.sent) == n + 1, 'updater did not send exactly one request'
+        elif e == 'reply':
+            j, pk, val = inflight.pop(0)
+            deliver(j, pk, val)
+            copies.append((j, pk, val))
+        elif e == 'copy':
+            ndup += 1
+            c = copies[_pick(sym.int(f'copy{ndup}', 0, len(copies) - 1), len(copies))] if len(copies) > 1 else copies[0]
+            j, pk, val = c
+            o = len(wire) - 1
+            if wire and not answered[o] and targets[j] == targets[o] and {kinds[j], kinds[o]} == {SET, READ}:
+                sym.goal('copy-with-the-id-of-the-open-request-on-another-channel')
+            deliver(j, pk, val)
+            sym.goal('duplicate')
+        else:
+            nnotif += 1
+            tgt = sym.choice(f'notify_target{nnotif}', 2)
+            val = sym.int(f'notify_value{nnotif}', 0, 255)
+            dev[tgt] = val
+            reported[tgt] = val
+            cf.deliver(E.packet(PORT_PARAM, CH_MISC, bytearray([MISC_VALUE_UPDATED] + E.ident_bytes(ids[tgt], True) + [val])))
+            sym.goal('notified')
+    else:
+        raise Inconclusive('event bound too small')
+    on_wire()
+    assert issued == N and len(wire) == N, 'a request was never sent'
+    assert all(answered) and not inflight
+    assert not up.wait_lock.held, 'wait_lock still held at the end'
+    assert not up.request_queue.items
+    # (with copies too: `reported` follows the packets that answer an open request under the same lenient matching)
+    for i in (0, 1):
+        assert p.get_value(names[i]) == text(reported[i]), 'cached value differs from the last value the device reported'
+    ms = [k for k in range(N) if kinds[k] == MISC]
+    assert sorted(c[0] for c in stored_cb) == ms, 'persistent_store callback not invoked exactly once per request'
+    if N >= 2 and any(kinds[k] != kinds[0] for k in range(N)):
+        sym.goal('mixed-kinds')
+    sym.goal('done')
+
+
+HARNESSES += [
+    Harness(f'serial[schedule,{k0}..]', h_serial, quick=dict(requests=3, kind0=k0), tiers=('quick',), timeout=(600, 600),
+            goals=('done', 'mixed-kinds'))
+    for k0 in REQ_KINDS
+] + [
+    Harness(f'serial[schedule,{k0},{k1}..]', h_serial, quick=dict(requests=4, kind0=k0, kind1=k1), tiers=('thorough',),
+            timeout=(3000, 3000), goals=('done', 'mixed-kinds'))
+    for k0 in REQ_KINDS for k1 in REQ_KINDS
+] + [
+    Harness(f'serial[copies,{k0}..]', h_serial, quick=dict(requests=3, dups=1, issue_first=True, kind0=k0),
+            thorough=dict(requests=3, dups=2, issue_first=True, kind0=k0), timeout=(600, 3000),
+            goals=('done', 'duplicate', 'copy-with-the-id-of-the-open-request-on-another-channel'))
+    for k0 in REQ_KINDS
+] + [
+    Harness('serial[notify]', h_serial, quick=dict(requests=2, notify=1), thorough=dict(requests=3, notify=1),
+            timeout=(600, 3000), goals=('done', 'notified')),
 ]
